@@ -181,6 +181,13 @@ func RunLawTest(pkgDir string) TestResult {
 	cmd.Dir = pkgDir
 	cmd.Env = goEnv()
 	out, _ := cmd.CombinedOutput()
+	for try := 0; try < 2 && strings.Contains(string(out), "/go-build/") && strings.Contains(string(out), "no such file or directory"); try++ {
+		// the shared Go build cache was trimmed under the build (sibling checks do that when the disk fills): not a verdict, retry
+		cmd = exec.Command("go", "test", "-vet=off", "-gcflags=-e", "-count=1", "-run", "^TestLw$", ".")
+		cmd.Dir = pkgDir
+		cmd.Env = goEnv()
+		out, _ = cmd.CombinedOutput()
+	}
 	res := TestResult{Output: string(out), Evals: map[string]int64{}, Stats: map[string]int64{}}
 	if strings.Contains(res.Output, "[build failed]") || strings.Contains(res.Output, "[setup failed]") {
 		res.BuildFailed = true
